@@ -279,7 +279,7 @@ func c20Stop(p *Prog, r *Report, sfs []sideFile) {
 	// STOP label before the state file is closed
 	labels := FindDeep(stop, 2, func(in ssa.Instruction) bool {
 		if call, ok := in.(*ssa.Call); ok {
-			if c := call.Call.StaticCallee(); c != nil && c.Name() == "setExperimentStateLabel" {
+			if c := call.Call.StaticCallee(); c != nil && c == c20LabelWriter(p) {
 				for _, a := range call.Call.Args {
 					if cst, ok := a.(*ssa.Const); ok && cst.Value != nil && cst.Value.Kind() == constant.String && constant.StringVal(cst.Value) == "STOP" {
 						return true
@@ -383,7 +383,7 @@ func c20Start(p *Prog, r *Report, sfs []sideFile) {
 	var label ssa.Instruction
 	Instrs(start, func(in ssa.Instruction) {
 		if call, ok := in.(*ssa.Call); ok {
-			if c := call.Call.StaticCallee(); c != nil && c.Name() == "setExperimentStateLabel" {
+			if c := call.Call.StaticCallee(); c != nil && c == c20LabelWriter(p) {
 				for _, a := range call.Call.Args {
 					if cst, ok := a.(*ssa.Const); ok && cst.Value != nil && cst.Value.Kind() == constant.String && constant.StringVal(cst.Value) == "START" {
 						label = in
@@ -579,7 +579,7 @@ func c20Events(p *Prog, r *Report, sfs []sideFile) {
 		}
 	}
 	// labels: every nil-result path of the exported setter and of the internal one passes exactly one line write
-	inner := p.Func("", wsT, "setExperimentStateLabel")
+	inner := c20LabelWriter(p)
 	outer := p.Func("", wsT, "SetExperimentStateLabel")
 	if inner == nil || outer == nil {
 		r.Unk("C20.R2", "state label setters", "-", "anchor not found")
@@ -656,6 +656,7 @@ func c20Who(p *Prog, r *Report, sfs []sideFile) {
 		}
 	}
 	users := map[string][]string{}
+	userFns := map[string]*ssa.Function{}
 	for _, fn := range p.LibFuncs() {
 		Instrs(fn, func(in ssa.Instruction) {
 			var addr ssa.Value
@@ -672,6 +673,7 @@ func c20Who(p *Prog, r *Report, sfs []sideFile) {
 			}
 			if o, f, _, ok := FieldOf(addr); ok && o == wsT && handles[f] {
 				name := FuncName(fn)
+				userFns[name] = fn
 				found := false
 				for _, u := range users[f] {
 					if u == name {
@@ -693,6 +695,10 @@ func c20Who(p *Prog, r *Report, sfs []sideFile) {
 		bad := ""
 		for _, u := range users[h] {
 			isWS := strings.HasPrefix(u, "(*"+wsT+").")
+			// an unexported function of the package that works on the writing state it is given
+			if uf := userFns[u]; uf != nil && !isWS && uf.Signature.Recv() == nil && len(uf.Params) > 0 && typeName(uf.Params[0].Type()) == wsT && uf.Object() != nil && !uf.Object().Exported() {
+				isWS = true
+			}
 			isHandler := strings.HasPrefix(u, "(*AnySource).Handle")
 			if !isWS && !isHandler {
 				bad = u
@@ -786,11 +792,47 @@ func c20More(p *Prog, r *Report, sfs []sideFile) {
 			}
 		}
 	})
+	isLabelTest := func(in ssa.Instruction) bool { return false }
 	if arm == nil {
-		r.Bad("C20.R2", "UNPAUSE with a label: the label test precedes every successful return", p.Pos(wc.Pos()), "the UNPAUSE arm of the write-control function was not found")
+		// the request may be classified elsewhere (a tagged switch on a request kind): the arm is
+		// then known by what it does: it clears the paused flag of the writing state.  That store
+		// must not be reachable without passing the test of the request's length.
+		var unpause ssa.Instruction
+		for _, st := range StoresTo(wc, wsT, "Paused") {
+			if c, isC := st.Val.(*ssa.Const); isC && c.Value != nil && c.Value.ExactString() == "false" {
+				unpause = st
+			}
+		}
+		if unpause == nil {
+			r.Unk("C20.R2", "UNPAUSE with a label: the label test precedes every successful return", p.Pos(wc.Pos()), "the UNPAUSE arm of the write-control function was not found (no prefix test for UNPAUSE and no store clearing the paused flag)")
+			return
+		}
+		lenTest := func(in ssa.Instruction) bool {
+			iff, ok := in.(*ssa.If)
+			if !ok {
+				return false
+			}
+			bo, ok := iff.Cond.(*ssa.BinOp)
+			if !ok {
+				return false
+			}
+			for _, side := range []ssa.Value{bo.X, bo.Y} {
+				if c, isCall := side.(*ssa.Call); isCall {
+					if b, isB := c.Call.Value.(*ssa.Builtin); isB && b.Name() == "len" {
+						if _, f, _, okf := FieldOf(c.Call.Args[0]); okf && f == "Request" {
+							return true
+						}
+					}
+				}
+			}
+			return false
+		}
+		esc := ReachAvoiding(wc, nil, lenTest, func(in ssa.Instruction) bool { return in == unpause })
+		r.Check(len(esc) == 0, "C20.R2", "UNPAUSE with a label: the label test precedes every successful return", p.InstrPos(unpause), "the paused flag is cleared only after the test of the request's length",
+			"the UNPAUSE arm can report success without having looked for a label: an accepted `UNPAUSE <label>` then leaves no line in the experiment-state file")
 		return
 	}
-	isLabelTest := func(in ssa.Instruction) bool {
+	isLabelTest = func(in ssa.Instruction) bool {
 		iff, ok := in.(*ssa.If)
 		if !ok {
 			return false
@@ -825,4 +867,43 @@ func c20More(p *Prog, r *Report, sfs []sideFile) {
 	}
 	r.Check(len(esc) == 0, "C20.R2", "UNPAUSE with a label: the label test precedes every successful return", pos, "every nil return of the UNPAUSE arm has passed the test of the request's length",
 		"the UNPAUSE arm can report success without having looked for a label: an accepted `UNPAUSE <label>` then leaves no line in the experiment-state file")
+}
+
+// c20LabelWriter: the function that records an experiment-state label (it stores the label field
+// of the writing state and writes the line): a method of the writing state or a function taking
+// it, whatever its name; the exported, locking wrapper is the one that calls it.
+var c20LabelWriterMemo = map[*Prog]*ssa.Function{}
+
+func c20LabelWriter(p *Prog) *ssa.Function {
+	if f, ok := c20LabelWriterMemo[p]; ok {
+		return f
+	}
+	var best *ssa.Function
+	for _, fn := range p.LibFuncs() {
+		if fnPkg(fn) != p.Root.Pkg || len(fn.Params) == 0 || typeName(fn.Params[0].Type()) != wsT {
+			continue
+		}
+		if len(StoresTo(fn, wsT, "ExperimentStateLabel")) == 0 {
+			continue
+		}
+		// the one that does not take the lock itself
+		locks := false
+		Instrs(fn, func(in ssa.Instruction) {
+			if cc := CallOf(in); cc != nil && strings.HasSuffix(CalleeName(cc), ").Lock") {
+				locks = true
+			}
+		})
+		// Stop also clears the label: it is not the writer (it stores the empty string only)
+		onlyEmpty := true
+		for _, st := range StoresTo(fn, wsT, "ExperimentStateLabel") {
+			if c, isC := st.Val.(*ssa.Const); !isC || c.Value == nil || c.Value.ExactString() != `""` {
+				onlyEmpty = false
+			}
+		}
+		if !locks && !onlyEmpty {
+			best = fn
+		}
+	}
+	c20LabelWriterMemo[p] = best
+	return best
 }
